@@ -215,4 +215,28 @@ theorem YInv_run (c : Cfg) (as : List Ans) (hK2 : Along K2Ok (init c) as) (hSrc 
   run_inv_along (Inv := YInv) (P := fun s a => K2Ok s a ∧ SrcOk s a) (fun s a h hp => YInv_step s a h hp.1 hp.2)
     as (init c) (YInv_init c) (Along.and hK2 hSrc)
 
+/-! how the two `delete_checkpoint` calls of `stop_trial` are reached -/
+
+theorem stopDel_from (s : LState) (a : Ans) (hp : s.pc = .stopCmd) (hw : (next s a).pc = .stopDel) :
+    s.cfg.deleteCkpt = true ∧ pending (next s a) = .delete s.cur.tid := by
+  cases a with
+  | ret =>
+    simp only [next, hp] at hw ⊢
+    by_cases hdc : s.cfg.deleteCkpt = true
+    · simp only [hdc, if_true]
+      exact ⟨trivial, rfl⟩
+    · simp [hdc] at hw
+  | _ => simp [next, hp, raiseFin] at hw
+
+theorem finStopDel_from (s : LState) (a : Ans) (hp : s.pc = .finStop) (hw : (next s a).pc = .finStopDel) :
+    s.cfg.deleteCkpt = true ∧ pending (next s a) = .delete s.t := by
+  cases a with
+  | ret =>
+    simp only [next, hp] at hw ⊢
+    by_cases hdc : s.cfg.deleteCkpt = true
+    · simp only [hdc, if_true]
+      exact ⟨trivial, rfl⟩
+    · simp [hdc] at hw
+  | _ => simp [next, hp, exitRaise] at hw
+
 end SyneTune.Tuner
